@@ -10,13 +10,13 @@
 (***************************************************************************)
 EXTENDS Naturals, Sequences, TLC, Json
 
-CONSTANTS MaxTokens, RootSorts, Full
+CONSTANTS MaxTokens, RootSorts, Allowed    \* Allowed: the tokens (leaves and operators) to use
 
 VARIABLES toks, owed
 vars == <<toks, owed>>
 
 \* token |-> <<result sort, operand sorts>>
-ArithLeaves == IF Full THEN {"x", "y", "sz", "pw", "c0", "c1", "c2", "cm1"} ELSE {"x", "y", "sz", "c1", "c2", "cm1"}
+ArithLeaves == {"x", "y", "sz", "pw", "c0", "c1", "c2", "cm1", "p", "q"}     \* p, q: template variables (C17)
 Sig(t) ==
     CASE t \in ArithLeaves -> <<"a", <<>>>>
       [] t = "sum2"  -> <<"a", <<"a", "a">>>>
@@ -40,11 +40,7 @@ Sig(t) ==
       [] t = "and2"  -> <<"b", <<"b", "b">>>>
       [] t = "or2"   -> <<"b", <<"b", "b">>>>
       [] t = "not"   -> <<"b", <<"b">>>>
-Ops == IF Full
-       THEN {"sum2", "sum3", "prod2", "neg", "pow2", "powc", "quot", "callf", "callfk", "callg", "sub", "min2", "max2",
-             "if", "lt", "eq", "ne", "ge", "and2", "or2", "not"}
-       ELSE {"sum2", "prod2", "neg", "pow2", "callf", "callfk", "sub", "if", "lt", "and2", "not"}
-Tokens == ArithLeaves \cup Ops
+Tokens == Allowed
 
 Init == toks = <<>> /\ owed \in {<<s>> : s \in RootSorts}
 
